@@ -12,6 +12,7 @@ import QrlewModel.Model.DpAgg
 import QrlewModel.Model.PupTree
 import QrlewModel.Model.RelTree
 import QrlewModel.Model.TauKeys
+import QrlewModel.Model.ExprImg
 import QrlewModel.Model.Tau
 import QrlewModel.Model.Rel
 import QrlewModel.Model.Quote
@@ -518,6 +519,27 @@ def runTauKeys (c : Json) (aux : Json) : Option Json := do
   let sorted := released.toArray.qsort (fun a b => a < b)
   pure (Json.mkObj [("released", Json.arr (sorted.map fun x => Json.num (JsonNumber.fromInt x)))])
 
+/-- arithmetic expression trees: `Qrlew.ExprImg.image` and `eval` -/
+partial def aeOfJson? (j : Json) : Option ExprImg.AE := do
+  let tag ← (j.getArrVal? 0).toOption >>= fun t => t.getStr?.toOption
+  match tag with
+  | "col" => do pure (.col ((← (j.getArrVal? 1).toOption >>= jInt?).toNat))
+  | "lit" => do pure (.lit (← (j.getArrVal? 1).toOption >>= jInt?))
+  | "plus" => do pure (.plus (← (j.getArrVal? 1).toOption >>= aeOfJson?) (← (j.getArrVal? 2).toOption >>= aeOfJson?))
+  | "minus" => do pure (.minus (← (j.getArrVal? 1).toOption >>= aeOfJson?) (← (j.getArrVal? 2).toOption >>= aeOfJson?))
+  | "mul" => do pure (.mul (← (j.getArrVal? 1).toOption >>= aeOfJson?) (← (j.getArrVal? 2).toOption >>= aeOfJson?))
+  | _ => none
+
+def runExprImg (c : Json) : Option Json := do
+  let colsJ ← (c.getObjVal? "cols").toOption >>= fun a => a.getArr?.toOption
+  let cols ← colsJ.toList.mapM jPairs?
+  let tys := cols.map (fromIntervals cap)
+  let valsJ ← (c.getObjVal? "vals").toOption >>= fun a => a.getArr?.toOption
+  let vals ← valsJ.toList.mapM jInt?
+  let e ← (c.getObjVal? "expr").toOption >>= aeOfJson?
+  pure (Json.mkObj [("image", ivsToJson (ExprImg.image cap (fun i => tys.getD i []) e)),
+    ("value", Json.num (JsonNumber.fromInt (ExprImg.eval (fun i => vals.getD i 0) e)))])
+
 def runLimit (c : Json) : Option Json := do
   let k ← (c.getObjVal? "k").toOption >>= jInt?
   let nU ← (c.getObjVal? "n_units").toOption >>= jInt?
@@ -702,6 +724,7 @@ def handle (line : String) : Json :=
       | "pup" => runPup c
       | "reltree" => runRelTree c
       | "taukeys" => runTauKeys c ((j.getObjVal? "aux").toOption.getD Json.null)
+      | "exprimg" => runExprImg c
       | "dpevent" => runDpEvent c
       | "dpquery" => runDpQuery ((j.getObjVal? "aux").toOption.getD Json.null)
       | "rules" => runRules ((j.getObjVal? "aux").toOption.getD Json.null)
